@@ -5,6 +5,7 @@ import (
 	"fmt"
 	"io"
 	"log"
+	"math"
 	"runtime"
 	"strconv"
 	"strings"
@@ -225,9 +226,11 @@ func (p *parser) parseComparison() *proto.Query_Expression {
 
 	switch p.peek().typ {
 	case itemPlaceholder:
-		placeholder = decodePlaceholder(p.next().val)
-		if placeholder < 1 {
-			p.errorf("invalid placeholder %d; must be 1 or greater", placeholder)
+		var ok bool
+
+		placeholder, ok = decodePlaceholder(p.next().val)
+		if !ok {
+			p.errorf("invalid placeholder; must be a number between 1 and %d", math.MaxInt32)
 		}
 	case itemValue:
 		value = decodeString(p.next().val)
@@ -263,13 +266,17 @@ func decodeString(s string) string {
 	return strings.ReplaceAll(s, `""`, `"`)
 }
 
-func decodePlaceholder(s string) int {
+func decodePlaceholder(s string) (int, bool) {
 	if len(s) < 2 {
-		return 0
+		return 0, false
 	}
 
-	i, _ := strconv.Atoi(s[1:])
-	return i
+	i, err := strconv.ParseInt(s[1:], 10, 32)
+	if err != nil || i < 1 {
+		return 0, false
+	}
+
+	return int(i), true
 }
 
 func (p *parser) parseFieldList() []string {
